@@ -29,7 +29,7 @@ struct Job {
 fn slots_of(entry: Entry, attr: &str, item: &str, traits: &[String]) -> Result<Vec<(bool, String)>, String> {
     let ts = match entry {
         Entry::Attr => expand::expand_attr_iterated(attr, item)?,
-        Entry::Derive => expand::expand_derive(item)?,
+        Entry::Derive => expand::expand_derive_iterated(item)?,
     };
     let items = expand::parse_output(ts, entry == Entry::Attr)?;
     match expand::align(&items, traits)? {
@@ -130,6 +130,11 @@ pub fn run(ctx: &Ctx, rep: &mut Report) {
         let id: Vec<usize> = (0..n).collect();
         // (a) derive entry, merged
         jobs.push(Job { seed: si, kind: "entry", entry: Entry::Derive, attr: String::new(), item: format!("#[derive_ex({})] {}", s.attr, s.item), traits: s.traits.clone(), map: id.clone() });
+        // (a') `#[derive(Ex)]` next to the list written with the crate path: that list is an attribute-macro invocation
+        //      (rustc expands it after the derive), not a helper attribute of the derive - the impls must exist ONCE
+        for path in ["derive_ex::derive_ex", "::derive_ex::derive_ex"] {
+            jobs.push(Job { seed: si, kind: "derive-next-to-qualified-list", entry: Entry::Derive, attr: String::new(), item: format!("#[{path}({})] {}", s.attr, s.item), traits: s.traits.clone(), map: id.clone() });
+        }
         // (b) splits: BFS over cut sets
         if n >= 2 {
             let mut seen: BTreeSet<Vec<usize>> = BTreeSet::new();
